@@ -187,6 +187,61 @@ def run_uf(ComponentFinder, values, ops):
     return outs, fails, nt
 
 
+def gen_deep_chain(rng, n):
+    """a merge history that builds a parent chain of length ~n in the component finder: the current minimum of the growing
+    component is merged with the next smaller singleton (either argument order), so the old root becomes the child of a new
+    root and no path is ever compressed; a few finds on roots / shallow nodes in between (they compress nothing or little),
+    then finds on the deepest elements.  Variants: one chain, two chains joined at the end, a chain built from a shuffled
+    suffix first.  Iterative find/merge must handle any depth (seed C18-i: a recursive _find_node dies beyond ~1000)."""
+    values = rng.sample(range(0, 3 * n), n)
+    desc = sorted(values, reverse=True)
+    ops = []
+    kind = rng.choice(["one", "two", "one"])
+    chains = [desc] if kind == "one" else [desc[0::2], desc[1::2]]
+    for ch in chains:
+        for i in range(1, len(ch)):
+            a, b = ch[i], ch[i - 1]          # ch[i-1] is the current root (minimum so far) of the chain's component
+            ops.append(["merge", a, b] if rng.random() < 0.5 else ["merge", b, a])
+            if rng.random() < 0.002:
+                ops.append(["find", b])      # the old root: depth 1, compresses nothing
+    if kind == "two":
+        ops.append(["merge", chains[0][-1], chains[1][-1]])
+    deepest = [ch[0] for ch in chains]
+    for v in deepest + rng.sample(values, 3):
+        ops.append(["find", v])
+    return values, ops
+
+
+def run_uf_deep(ComponentFinder, values, ops):
+    """like run_uf, with a linear-time oracle (component minimum by an independent size-balanced merge of labelled sets)
+    and every exception inside the (valid) history reported as a failure"""
+    label = {v: v for v in values}            # value -> component id
+    members = {v: [v] for v in values}        # component id -> members
+    cmin = {v: v for v in values}
+    outs, fails = [], []
+    try:
+        cf = ComponentFinder(values)
+        for op in ops:
+            if op[0] == "merge":
+                cf.merge(op[1], op[2]); outs.append("ok")
+                a, b = label[op[1]], label[op[2]]
+                if a != b:
+                    if len(members[a]) < len(members[b]):
+                        a, b = b, a
+                    for m in members[b]:
+                        label[m] = a
+                    members[a].extend(members.pop(b)); cmin[a] = min(cmin[a], cmin.pop(b))
+            else:
+                r = cf.find(op[1]); outs.append(r)
+                exp = cmin[label[op[1]]]
+                if r != exp:
+                    fails.append(f"find({op[1]}) = {r}, minimum of its component is {exp} (history of {len(ops)} operations)")
+    except Exception as e:  # noqa: a valid history must never raise
+        fails.append(f"{type(e).__name__} after {len(outs)} of {len(ops)} operations of a valid history ({len(values)} values): {str(e)[:80]}")
+        outs.append("raised " + type(e).__name__)
+    return outs, fails, True
+
+
 def run(ctx):
     from whatshap.priorityqueue import PriorityQueue
     from whatshap.graph import ComponentFinder
@@ -214,13 +269,14 @@ def run(ctx):
         if len(batch) >= 500:
             flush()
 
-    def add_uf(values, ops, outs, fails, nt):
+    def add_uf(values, ops, outs, fails, nt, kind="uf"):
         ctx.evaluated()
         if nt:
-            ctx.nontrivial("uf" + repr((values, ops)))
-        ctx.dist("uf_len", len(ops))
+            ctx.nontrivial("uf" + repr((values, ops)) if kind == "uf" else "uf-deep%d/%d" % (len(values), hash(tuple(values)) % 10**9))
+        ctx.dist("uf_len", len(ops) if kind == "uf" else "deep>=%d" % (len(ops) // 1000 * 1000))
         for f in fails:
-            ctx.fail("component finder: " + f, {"kind": "uf", "values": values, "ops": ops}, key="uf-spec")
+            ctx.fail("component finder: " + f, {"kind": kind, "values": values, "ops": ops},
+                     key="uf-spec" if kind == "uf" else "uf-deep-chain")
         batch.append({"op": "c18.uf", "values": values, "ops": ops}); meta.append((ops, outs))
         if len(ctx.samples) < 4 and len(ops) > 3:
             ctx.sample({"uf_values": values, "uf_ops": ops, "impl": outs})
@@ -233,6 +289,10 @@ def run(ctx):
         import json
         cases = [json.load(open(ctx.replay))["case"]]
     for c in cases:
+        if c.get("kind") == "uf-deep":
+            outs, fails, nt = run_uf_deep(ComponentFinder, c["values"], c["ops"])
+            add_uf(c["values"], c["ops"], outs, fails, nt, kind="uf-deep")
+            continue
         if c.get("kind") == "uf" or "values" in c:
             outs, fails, nt = run_uf(ComponentFinder, c["values"], c["ops"])
             add_uf(c["values"], c["ops"], outs, fails, nt)
@@ -269,6 +329,13 @@ def run(ctx):
         outs, fails, nt = run_uf(ComponentFinder, values, ops)
         add_uf(values, ops, outs, fails, nt)
     flush()
+
+    # ---- deep parent chains (depth ~ number of values: 300 ... 3000; seed C18-i)
+    for n in ([300, 1100, 1600, 2400] if ctx.quick else [300, 700, 1100, 1300, 1600, 2000, 2400, 3000, 3000, 3000]) * ctx.scale:
+        values, ops = gen_deep_chain(rng, n + rng.randrange(0, 50))
+        outs, fails, nt = run_uf_deep(ComponentFinder, values, ops)
+        add_uf(values, ops, outs, fails, nt, kind="uf-deep")
+        flush()
 
     # ---- exhaustive small spaces (thorough)
     if not ctx.quick:
